@@ -219,7 +219,7 @@ func (g *gen) step() Step {
 	case 32:
 		return un("SmoothNormals", args())
 	case 33:
-		return un("Laplacian", args("id", g.pickAttr(m, 3, 1), "iters", 1+g.r.Intn(3)))
+		return un("Laplacian", args("id", g.pickAttr(m, 3, 1), "iters", 1+g.r.Intn(3), "lam2", 1+g.r.Intn(2)))
 	case 0, 1, 2, 3:
 		// Append: prefer a partner of the same topology
 		t := live[g.r.Intn(len(live))]
